@@ -55,7 +55,7 @@ def plan(tier, seed):
     jobs.append({'kind': 'uniform', 'idx': i, 'seed': seed, 'length': 40})
   for wrapper in ('pmap', 'pjit'):
     for d in (2, 3, 4):
-      for i in range(2 if tier == 'quick' else 10):
+      for i in range(3 if tier == 'quick' else 12):
         jobs.append({'kind': 'sharded', 'wrapper': wrapper, 'D': d, 'idx': i,
                      'seed': seed, 'length': 14 if tier == 'quick' else 40})
   return jobs
@@ -71,7 +71,8 @@ def floors(tier):
           'ev:uniform_deterministic_in_key': 50 if q else 500,
           'ev:sharded_sample_matches_model': 30 if q else 400,
           'ev:oversized_insert_refused': 40,
-          'ev:pytree_sample_matches_model': 30 if q else 300}
+          'ev:pytree_sample_matches_model': 30 if q else 300,
+          'ev:sharded_uniform_returns_shard_records': 10 if q else 100}
 
 
 class Model:
@@ -331,12 +332,53 @@ def run(job, mon):
     n = int(rng.integers(1, 6))
     b = int(rng.integers(1, 5))
     cyc = bool(rng.integers(0, 2))
-    base = rb.Queue(n, jp.zeros((), jp.int32), b, cyclic=cyc)
+    uniform = job['idx'] % 3 == 2
+    if uniform:
+      base = rb.UniformSamplingQueue(n, jp.zeros((), jp.int32), b)
+    else:
+      base = rb.Queue(n, jp.zeros((), jp.int32), b, cyclic=cyc)
     if job['wrapper'] == 'pmap':
       q = rb.PmapWrapper(base, local_device_count=d)
     else:
       mesh = jax.sharding.Mesh(np.array(jax.devices()[:d]), ('x',))
       q = rb.PjitWrapper(base, mesh=mesh, axis_names=('x',))
+    if uniform:
+      # every shard draws uniformly from what *it* holds; batches interleave
+      st = q.init(jax.random.PRNGKey(3))
+      held = [[] for _ in range(d)]
+      nid = 1
+      ops = []
+      cfg = dict(wrapper=job['wrapper'], D=d, N=n, B=b, uniform=True)
+      for _ in range(job['length']):
+        if not held[0] or rng.random() < 0.5:
+          k = int(rng.integers(1, n + 1))
+          ids = list(range(nid, nid + k * d))
+          nid += k * d
+          st = q.insert(st, jp.array(ids, jp.int32))
+          for s_ in range(d):
+            held[s_] = (held[s_] + ids[s_::d])[-n:]
+          ops.append(k)
+        else:
+          ops.append('s')
+          st2, got = q.sample(st)
+          _, again = q.sample(st)
+          got = [int(v) for v in np.asarray(got)]
+          again = [int(v) for v in np.asarray(again)]
+          ok = len(got) == b * d and all(
+              got[i * d + s_] in held[s_] for i in range(b)
+              for s_ in range(d))
+          mon.check('sharded_uniform_returns_shard_records',
+                    ok and got == again,
+                    lambda: dict(cfg, ops=list(ops), got=got, again=again,
+                                 held=held))
+          st = st2
+        sz = int(q.size(st))
+        mon.check('sharded_size_matches_model',
+                  sz == sum(len(h) for h in held),
+                  lambda: dict(cfg, ops=list(ops), size=sz,
+                               model=sum(len(h) for h in held)))
+      mon.distinct('shu/%s/%s' % (sorted(cfg.items()), ops), True)
+      return
     models = [Model(n, b, cyc) for _ in range(d)]
     st = q.init(jax.random.PRNGKey(2))
     nid = 1
